@@ -420,7 +420,10 @@ pub fn batch(a: &BatchArgs) -> BatchOut {
 
 pub fn replay(path: &Path, verbose: bool) -> Result<(ReplayFile, RunOut), String> {
     let txt = std::fs::read_to_string(path).map_err(|e| format!("cannot read {}: {e}", path.display()))?;
-    let rf: ReplayFile = serde_json::from_str(&txt).map_err(|e| format!("cannot parse {}: {e}", path.display()))?;
+    // scenarios may nest far deeper than serde_json's default limit of 128 (deep-nesting workloads)
+    let mut de = serde_json::Deserializer::from_str(&txt);
+    de.disable_recursion_limit();
+    let rf: ReplayFile = serde::Deserialize::deserialize(&mut de).map_err(|e| format!("cannot parse {}: {e}", path.display()))?;
     if rf.build != build_name() {
         return Err(format!("replay file is for build `{}`, this binary is `{}`", rf.build, build_name()));
     }
